@@ -508,24 +508,87 @@ def adt_fields(crate, path):
     return a['variants'][0]['fields']
 
 
-def client_field(cad, role, adt='cadence::client::StatsdClient'):
-    """Private field of StatsdClient (or its builder) by role (type based): 'sink' -> Box<dyn MetricSink..>,
-    'errors' -> Box<dyn Fn(MetricError)..>, 'prefix' -> the String, 'tags' -> Vec<(Option<String>, String)>,
-    'container_id' -> Option<String>."""
+def _role_of_type(ty):
+    ty = ty.replace(' ', '')
+    if 'dyncadence::sinks::core::MetricSink' in ty:
+        return 'sink'
+    if 'dyncore::ops::function::Fn(cadence::types::MetricError)' in ty:
+        return 'errors'
+    if ty == 'alloc::string::String':
+        return 'prefix'
+    if ty.startswith('alloc::vec::Vec<(core::option::Option<alloc::string::String>'):
+        return 'tags'
+    if ty == 'core::option::Option<alloc::string::String>':
+        return 'container_id'
+    return None
+
+
+def client_field_path(cad, role, adt='cadence::client::StatsdClient', depth=0):
+    """Access path (tuple of field names) of the private field of StatsdClient (or its builder) with the given role
+    (type based): 'sink' -> Box<dyn MetricSink..>, 'errors' -> Box<dyn Fn(MetricError)..>, 'prefix' -> the String,
+    'tags' -> Vec<(Option<String>, String)>, 'container_id' -> Option<String>.  The field may sit in a private struct
+    of the client module that groups configuration."""
     fs = adt_fields(cad, adt) or []
     for f in fs:
-        ty = f['ty'].replace(' ', '')
-        if role == 'sink' and 'dyncadence::sinks::core::MetricSink' in ty:
-            return f['name']
-        if role == 'errors' and 'dyncore::ops::function::Fn(cadence::types::MetricError)' in ty:
-            return f['name']
-        if role == 'prefix' and ty == 'alloc::string::String':
-            return f['name']
-        if role == 'tags' and ty.startswith('alloc::vec::Vec<(core::option::Option<alloc::string::String>'):
-            return f['name']
-        if role == 'container_id' and ty == 'core::option::Option<alloc::string::String>':
-            return f['name']
+        if _role_of_type(f['ty']) == role:
+            return (f['name'],)
+    if depth < 2:
+        for f in fs:
+            h = type_head(f['ty'])
+            if h.startswith('cadence::client::') and h in cad.adts and cad.adts[h]['kind'] == 'Struct':
+                sub = client_field_path(cad, role, h, depth + 1)
+                if sub is not None:
+                    return (f['name'],) + sub
     return None
+
+
+def client_field(cad, role, adt='cadence::client::StatsdClient'):
+    """leaf name of client_field_path"""
+    p = client_field_path(cad, role, adt)
+    return p[-1] if p else None
+
+
+def field_path_of(t, param=1):
+    """string-named fields on the access path of t from the parameter, outermost first; None if t is not rooted there"""
+    names = []
+    while True:
+        k = t[0]
+        if k in ('ref', 'deref', 'unsize', 'autoderef', 'conv', 'load', 'payload', 'mutated'):
+            t = t[1]
+        elif k == 'cast':
+            t = t[4]
+        elif k == 'field':
+            if isinstance(t[2], str):
+                names.append(t[2])
+            t = t[1]
+        elif k == 'call' and isinstance(t[1], str) and len(t[2]) == 1 and t[1].rsplit('::', 1)[-1] in VIEW_FNS:
+            t = t[2][0]
+        else:
+            break
+    if t == ('param', param):
+        return tuple(reversed(names))
+    return None
+
+
+def on_self_path(t, leaf, param=1):
+    """t is (a view of / a value inside) self.<..>.<leaf>"""
+    p = field_path_of(t, param)
+    return p is not None and leaf is not None and leaf in p
+
+
+def get_path(t, path):
+    """value of the nested field `path` of an aggregate / place term"""
+    from ..terms import field_of as _fo
+    for n in path:
+        t = norm(t)
+        t = _fo(t, n, None)
+    return norm(t)
+
+
+def mk_path(base, path):
+    for n in path:
+        base = ('field', base, n)
+    return base
 
 
 VIEW_CALLS = ('::as_deref', '::as_str', '::as_ref', '::as_slice', '::iter', 'IntoIterator>::into_iter', 'Deref>::deref', '::as_mut',
